@@ -119,6 +119,7 @@ func ruleSTypes(p *Prog, r *Report) {
 			all = append(all, int64Val(int64(i)))
 		}
 		ctorOf := map[string]bool{}
+		builders := messageBuilders(p, fn)
 		CheckDomain(p, r, DomainSpec{Rule: rule, Key: rule + ":hsms.parseMessage:ptype*stype", Fn: fn,
 			Env: map[string]Val{"p0.input": {K: KSlice, S: "p0.input", Len: -1}, "p0.pos": int64Val(4)},
 			Subjs: []Subj{
@@ -148,7 +149,7 @@ func ruleSTypes(p *Prog, r *Report) {
 			in.PathBind["p0.input[9]"] = int64Val(int64(st))
 			got := map[string]bool{}
 			in.OnCall = func(call *ssa.Call, callee *ssa.Function, args []Val, fr *frame) {
-				if callee.Pkg != nil && callee.Pkg.Pkg.Name() == "ast" && strings.HasPrefix(callee.Name(), "NewHSMS") && fr.fn == fn {
+				if callee.Pkg != nil && callee.Pkg.Pkg.Name() == "ast" && strings.HasPrefix(callee.Name(), "NewHSMS") && builders[fr.fn] {
 					got[callee.Name()] = true
 				}
 			}
@@ -461,8 +462,9 @@ func ruleDecodeHeader(p *Prog, r *Report) {
 		}
 		return out
 	}
+	builders := messageBuilders(p, fn)
 	in.OnCall = func(call *ssa.Call, callee *ssa.Function, a []Val, fr *frame) {
-		if fr.fn != fn {
+		if !builders[fr.fn] {
 			return
 		}
 		if callee.Name() == "Uint16" && len(a) > 0 {
@@ -601,19 +603,28 @@ func ruleFraming(p *Prog, r *Report) {
 		found := false
 		var callBlk *ssa.BasicBlock
 		var callPos token.Pos
-		for _, b := range fn.Blocks {
-			for _, instr := range b.Instrs {
-				if c, ok := instr.(*ssa.Call); ok {
-					if sc := c.Common().StaticCallee(); sc != nil && sc.Name() == "NewHSMSDataMessage" {
-						callBlk, callPos = b, c.Pos()
+		// the function that builds the data message: parseMessage itself or a
+		// helper of the same package it hands the data case to
+		var sites []*ssa.BasicBlock
+		for g := range messageBuilders(p, fn) {
+			for _, b := range g.Blocks {
+				for _, instr := range b.Instrs {
+					if c, ok := instr.(*ssa.Call); ok {
+						if sc := c.Common().StaticCallee(); sc != nil && sc.Name() == "NewHSMSDataMessage" {
+							sites = append(sites, b)
+							callBlk, callPos = b, c.Pos()
+						}
 					}
 				}
 			}
 		}
+		if len(sites) != 1 {
+			callBlk = nil
+		}
 		if callBlk == nil {
-			r.unk(rule, key, p.Pos(fn.Pos()), "call of ast.NewHSMSDataMessage not found")
+			r.unk(rule, key, p.Pos(fn.Pos()), "a single call of ast.NewHSMSDataMessage in parseMessage or one of its helpers was not found")
 		} else {
-			for _, b := range fn.Blocks {
+			for _, b := range callBlk.Parent().Blocks {
 				iff, ok := b.Instrs[len(b.Instrs)-1].(*ssa.If)
 				if !ok || !b.Dominates(callBlk) {
 					continue
@@ -753,3 +764,46 @@ func ruleDivisibility(p *Prog, r *Report) {
 type bigIntT = big.Int
 
 func newBig(i int64) *big.Int { return big.NewInt(i) }
+
+// messageBuilders lists parseMessage and the functions of its package it
+// (transitively, two levels) calls that build an HSMS message themselves: the
+// decoder's header handling may be split over such helpers.
+func messageBuilders(p *Prog, fn *ssa.Function) map[*ssa.Function]bool {
+	out := map[*ssa.Function]bool{fn: true}
+	buildsMsg := func(g *ssa.Function) bool {
+		for _, b := range g.Blocks {
+			for _, instr := range b.Instrs {
+				if c, ok := instr.(*ssa.Call); ok {
+					if sc := c.Common().StaticCallee(); sc != nil && sc.Pkg != nil && sc.Pkg.Pkg.Name() == "ast" && strings.HasPrefix(sc.Name(), "NewHSMS") {
+						return true
+					}
+				}
+			}
+		}
+		return false
+	}
+	var walk func(g *ssa.Function, depth int)
+	walk = func(g *ssa.Function, depth int) {
+		if depth > 2 {
+			return
+		}
+		for _, b := range g.Blocks {
+			for _, instr := range b.Instrs {
+				c, ok := instr.(*ssa.Call)
+				if !ok {
+					continue
+				}
+				sc := c.Common().StaticCallee()
+				if sc == nil || sc.Pkg != fn.Pkg || out[sc] {
+					continue
+				}
+				if buildsMsg(sc) {
+					out[sc] = true
+				}
+				walk(sc, depth+1)
+			}
+		}
+	}
+	walk(fn, 0)
+	return out
+}
